@@ -28,15 +28,15 @@ Definition be_bytes (n : nat) (x : Z) : list byte := rev (le_bytes n x).
 Definition be_val (bs : list byte) : Z := le_val (rev bs).
 
 (** * the two CRCs of a FLAC frame, bit by bit (most significant bit first, initial value 0) *)
-Definition crc_step (width poly c : Z) : Z :=
-  let c2 := (2 * c) mod 2 ^ width in
-  if Z.testbit c (width - 1) then Z.lxor c2 poly else c2.
+Definition crc_step (top mask poly c : Z) : Z :=
+  let c2 := Z.land (Z.shiftl c 1) mask in            (* shift left, drop the bit that leaves the register *)
+  if Z.testbit c top then Z.lxor c2 poly else c2.
 Definition iter8 (f : Z -> Z) (x : Z) : Z := f (f (f (f (f (f (f (f x))))))).
 (** CRC-8, polynomial x^8 + x^2 + x + 1 *)
-Definition crc8_byte (c b : Z) : Z := iter8 (crc_step 8 7) (Z.lxor c b).
+Definition crc8_byte (c b : Z) : Z := iter8 (crc_step 7 255 7) (Z.lxor c b).
 Definition crc8 (bs : list byte) : Z := fold_left crc8_byte bs 0.
 (** CRC-16, polynomial x^16 + x^15 + x^2 + 1 *)
-Definition crc16_byte (c b : Z) : Z := iter8 (crc_step 16 32773) (Z.lxor c (b * 256)).
+Definition crc16_byte (c b : Z) : Z := iter8 (crc_step 15 65535 32773) (Z.lxor c (b * 256)).
 Definition crc16 (bs : list byte) : Z := fold_left crc16_byte bs 0.
 
 (** * the audio description *)
